@@ -43,16 +43,9 @@ func runC18(c *Ctx) {
 		return
 	}
 	// tokenizer by role: callee of NewHostRule taking *string and returning string
-	var tok *ssa.Function
-	eachInstrG(c.P, nhr, func(_ *ssa.BasicBlock, in ssa.Instruction) {
-		if ci, ok := in.(ssa.CallInstruction); ok {
-			if cal := ci.Common().StaticCallee(); cal != nil && c.P.IsLibFunc(cal) && !c.P.IsNewHelper(cal) && cal.Signature.Params().Len() == 1 && typeStr(cal.Signature.Params().At(0).Type()) == "*string" {
-				tok = cal
-			}
-		}
-	})
+	tok := tokenizerRole(c.P, nhr)
 	if tok == nil {
-		c.Fail("C18.R2", "anchor:tokenizer", nhr.Pos(), "unresolved anchor: NewHostRule calls no func(*string) string")
+		c.Fail("C18.R2", "anchor:tokenizer", nhr.Pos(), "unresolved anchor: NewHostRule calls no tokenizer (func(*string) string or func(string) (token, rest string))")
 		return
 	}
 	c.Fn(FuncName(tok))
@@ -445,4 +438,36 @@ func runC18(c *Ctx) {
 		c.Fail("C18.R7", "DNS host table probe", 0, "UNDECIDED: no emission found")
 	}
 	_ = strings.TrimSpace
+}
+
+// tokenizerRole: the callee of the hosts-line parser that splits off the next
+// field: one parameter (*string: remainder written back; or string: remainder
+// returned as second result), string result(s), at least two scanning loops.
+func tokenizerRole(p *Prog, nhr *ssa.Function) *ssa.Function {
+	var tok *ssa.Function
+	eachInstrG(p, nhr, func(_ *ssa.BasicBlock, in ssa.Instruction) {
+		ci, ok := in.(ssa.CallInstruction)
+		if !ok {
+			return
+		}
+		cal := ci.Common().StaticCallee()
+		if cal == nil || !p.IsLibFunc(cal) || cal.Signature.Recv() != nil || cal.Signature.Params().Len() != 1 {
+			return
+		}
+		pt := typeStr(cal.Signature.Params().At(0).Type())
+		res := cal.Signature.Results()
+		okSig := (pt == "*string" && res.Len() == 1 && typeStr(res.At(0).Type()) == "string") ||
+			(pt == "string" && res.Len() == 2 && typeStr(res.At(0).Type()) == "string" && typeStr(res.At(1).Type()) == "string")
+		if !okSig {
+			return
+		}
+		nLoops := 0
+		for gf := range helperGroup(p, cal) {
+			nLoops += len(loopsOf(gf))
+		}
+		if nLoops >= 2 {
+			tok = cal
+		}
+	})
+	return tok
 }
